@@ -4,9 +4,9 @@ package main
 
 import (
 	"encoding/json"
-	"math/rand"
 	"flag"
 	"fmt"
+	"math/rand"
 	"os"
 	"os/exec"
 	"path/filepath"
@@ -619,35 +619,35 @@ func checkCmd(args []string) int {
 	ev := Evidence{PropertyID: id, Tier: *tier, Seed: seed, Level: "proof", WallS: time.Since(start).Seconds(), Violations: violations,
 		Assumptions: plan.assumptionList(axioms),
 		Coverage: map[string]interface{}{
-			"obligations":            total - knownCount,
-			"discharged":             discharged,
-			"obligations_generated":  total,
-			"traces_validated_against_impl": xval,
-			"translation_disagreements": xdis,
-			"translation_samples":    xsamples,
-			"refuted_known_findings": knownCount,
-			"undecided":              undecided,
+			"obligations":                        total - knownCount,
+			"discharged":                         discharged,
+			"obligations_generated":              total,
+			"traces_validated_against_impl":      xval,
+			"translation_disagreements":          xdis,
+			"translation_samples":                xsamples,
+			"refuted_known_findings":             knownCount,
+			"undecided":                          undecided,
 			"not_attempted_after_failure_budget": skipped,
-			"checker_cmd":            fmt.Sprintf("bin/verif check %s --tier %s   (z3-new -smt2 on generated SMT-LIB; FP bit-precise)", id, *tier),
-			"trusted_base":           trusted,
-			"samples":                samples,
-			"functions_under_contract": fl,
-			"obligations_by_kind":    byKind,
-			"ground_families":        tdefs,
-			"scenarios_executed":     scenCount,
-			"exhaustive":             len(templates) > 0, // ground families enumerate their finite domains completely
-			"solver_queries":         d.Stats.BySolver,
-			"solver_ms":              d.Stats.MillisBy,
-			"solver_processes":       d.Stats.Processes,
-			"solve_wall_s":           solveS,
-			"oracle_tables":          map[string]int{"pow13": len(u.Oracle.PowTab[13]), "pow15": len(u.Oracle.PowTab[15]), "formatfloat": len(u.Oracle.FmtTab)},
-			"meta_steps":             plan.Meta,
-			"known_findings":         kfl,
-			"fixed_findings":         fixedLines,
-			"integers":               "enumeration values are mathematical Int (only compared); the one integer computation (roundUp's %) is on 64-bit vectors; floating point is bit-precise Float64, never mathematical",
-			"contract_files":         contractFiles(u),
-			"race_detector_cross_check": raceNote,
-			"end_to_end_probes":      probeNotes,
+			"checker_cmd":                        fmt.Sprintf("bin/verif check %s --tier %s   (z3-new -smt2 on generated SMT-LIB; FP bit-precise)", id, *tier),
+			"trusted_base":                       trusted,
+			"samples":                            samples,
+			"functions_under_contract":           fl,
+			"obligations_by_kind":                byKind,
+			"ground_families":                    tdefs,
+			"scenarios_executed":                 scenCount,
+			"exhaustive":                         len(templates) > 0, // ground families enumerate their finite domains completely
+			"solver_queries":                     d.Stats.BySolver,
+			"solver_ms":                          d.Stats.MillisBy,
+			"solver_processes":                   d.Stats.Processes,
+			"solve_wall_s":                       solveS,
+			"oracle_tables":                      map[string]int{"pow13": len(u.Oracle.PowTab[13]), "pow15": len(u.Oracle.PowTab[15]), "formatfloat": len(u.Oracle.FmtTab)},
+			"meta_steps":                         plan.Meta,
+			"known_findings":                     kfl,
+			"fixed_findings":                     fixedLines,
+			"integers":                           "enumeration values are mathematical Int (only compared); the one integer computation (roundUp's %) is on 64-bit vectors; floating point is bit-precise Float64, never mathematical",
+			"contract_files":                     contractFiles(u),
+			"race_detector_cross_check":          raceNote,
+			"end_to_end_probes":                  probeNotes,
 		},
 	}
 	if !*noEvidence {
